@@ -74,4 +74,18 @@ def run(ctx):
     ctx.trusted += ["go/cmd/hxmetastore + go/internal/fakeddb + go/internal/fakesql + Driver/Metastore.lean (differential correspondence "
                     "through the public Metastore interface, requests compared canonically)",
                     "go/cmd/extract/metastore.go (statements, tags, request literals, skeletons regenerated from the four sources)"]
+    # concurrent callers: the in-memory metastore is shared by goroutines (and by "processes" in the tests):
+    # simultaneous Stores of one (id, created) must acknowledge exactly one writer and keep its record
+    import os as _os
+    from verifpy.envelope import build_overlay
+    ov = build_overlay(ctx, sync=True)
+    hx = ctx.build_go("hxconc", overlay=ov) if ov else None
+    if hx:
+        tr = _os.path.join(ctx.work, "memstore.out")
+        if ctx.run_harness(hx, ["-mode", "memstore", "-rounds", "3000" if ctx.tier == "quick" else "60000", "-goroutines", "4"], tr, timeout=900):
+            lines = open(tr).read().splitlines()
+            for l in lines:
+                if l.endswith("VIOLATION"):
+                    ctx.monitor_fail.append({"what": l, "signature": "memstore " + l, "case": "# replay: build/hxconc -mode memstore -rounds 3000 -goroutines 4\n" + l})
+            ctx.notes["concurrent_store_rounds"] = sum(1 for _ in [0]) and (lines[-1] if lines else "")
     return ctx.finish(level="proof")
